@@ -256,6 +256,15 @@ def c01_3(ctx):
             roles = role_of_name.get(tname, set())
             key = f'{ctx.short(fn).split(".")[-2]}.{fn.name}:{pcls.name}:{tname}'
             n += 1
+            # a field whose value is 0 is still a field: the part may be skipped only when the value is None
+            vname = unparse(c.args[0]) if c.args else None
+            if vname:
+                rz = resolver(ctx, fn, inline=False)
+                for cl_ in filter_facts_at(ctx, fn, c, rz):
+                    for l in cl_:
+                        if l[0] == 'truthy' and l[1] == vname and l[2] is True:
+                            ctx.refute(f'geometry:{key}:zero-value-kept', fn.site(c), 'a configured value of 0 still produces its field (presence is tested with `is not None`)',
+                                       f'the part is built only if `{vname}` is truthy: a value of 0 drops the field and shifts everything after it')
             if pcls.name == 'CompositeByteCodePart':
                 lst = b.get('bytecode_parts')
                 first = unparse(lst.elts[0]) if isinstance(lst, ast.List) and lst.elts else None
@@ -549,7 +558,39 @@ def c01_7(ctx):
         ctx.err('composite:field-by-field', gv.site(lp), 'packer or masked shift/or form', 'unrecognised')
 
 
-RULES = [c01_1, c01_2, c01_3, c01_4, c01_5, c01_6, c01_7]
+def c01_8(ctx):
+    ctx.rule('C01.8', 'the ISA\'s default byte order reaches every operand unchanged', 20)
+    n = 0
+    allowed = {'default_endian', 'self.endian', 'self._default_endian'}
+    for fn in ctx.repo.all_functions():
+        for e in ctx.cg.callees(fn):
+            if not isinstance(e.node, ast.Call):
+                continue
+            names = [p_.arg for p_ in e.callee.call_params]
+            if 'default_endian' not in names:
+                continue
+            b = bind_args(e.node, e.callee)
+            a = b.get('default_endian')
+            n += 1
+            ctx.check(a is not None and unparse(a) in allowed, f'endian-default:{ctx.short(fn).split("assembler.model.")[-1]}->{e.callee.cls.name if e.callee.cls else e.callee.name}',
+                      fn.site(e.node), 'the default byte order is handed down unchanged',
+                      f'default_endian={unparse(a) if a is not None else "<not passed: the callee default applies>"}')
+    for f in ctx.repo.all_functions():
+        if 'default_endian' in f.param_names:
+            args = f.node.args
+            pos = list(args.posonlyargs) + list(args.args)
+            idx = [p_.arg for p_ in pos].index('default_endian') if 'default_endian' in [p_.arg for p_ in pos] else None
+            has_default = idx is not None and idx >= len(pos) - len(args.defaults)
+            ctx.check(not has_default, f'endian-default:no-fallback:{ctx.short(f).split("assembler.model.")[-1]}', f.site(),
+                      'no constructor supplies its own fallback byte order', 'default_endian has a default value')
+    oi = ctx.repo.func('bespokeasm.assembler.model.operand.Operand.__init__')
+    st = self_attr_stores(oi.node, '_default_endian')
+    ctx.check(len(st) == 1 and unparse(st[0][2]) == 'default_endian', 'endian-default:stored', oi.site(), 'an operand keeps the default byte order it was given', '; '.join(unparse(x[0]) for x in st))
+    if n < 15:
+        ctx.err('endian-default:sites', '-', 'at least 15 hand-down sites', f'{n}')
+
+
+RULES = [c01_1, c01_2, c01_3, c01_4, c01_5, c01_6, c01_7, c01_8]
 
 _OP = 'assembler/model/operand_parser.py'
 _GI = 'assembler/bytecode/generator/instruction.py'
@@ -657,6 +698,12 @@ MUTANTS = [
             value = (value << p.value_size) | p.get_value(label_scope, instruction_address, instruction_size)
         return value''', 'C01.7'),
     V('c01-packer-ignores-align', 'assembler/bytecode/packed_bits.py', '        if byte_aligned and self._cur_bit_idx < 7:', '        if byte_aligned and self._cur_bit_idx < 0:', 'C01.4'),
+]
+MUTANTS += [
+    V('c01-zero-argument-dropped', _T + 'enumeration_operand.py', "                if arg_value is not None:\n", "                if arg_value:\n", 'C01.3'),
+    V('c01-register-default-endian', _T + 'register.py', "        super().__init__(operand_id, arg_config_dict, default_endian)\n        if self.register not in regsiters:", "        super().__init__(operand_id, arg_config_dict, 'big')\n        if self.register not in regsiters:", 'C01.8'),
+    V('c01-valid-address-endian', _T + 'numeric_expression.py', "                self.argument_byte_align,\n                self.argument_endian,\n                line_id,\n            )\n        else:", "                self.argument_byte_align,\n                self._default_endian,\n                line_id,\n            )\n        else:", 'C01.3'),
+    V('c01-prefix-append', _OP, "prefix_op_bytecode.insert(0, op.bytecode)", "prefix_op_bytecode.append(op.bytecode)", 'C01.1'),
 ]
 TWINS = [
     V('c01-t-args-extend', _OP, '''        for arg in arguments:
